@@ -250,20 +250,32 @@ values other than 0/1/2, ill-formed rules limited to no network at all (observat
 def outsideDomain (rules : List Rule) : Bool :=
   rules.any (fun r => r.ext.contains .blank || r.mode > 2 || (inert r && illFormed r))
 
-def reasonF14 : String := "rule with empty External list rejected by the public option"
+/-- An `External` list that was written (not empty) but names no address at all: every entry is
+blank. The public option treats such a list as a mistake (it is NOT the documented empty list). -/
+def allBlank (r : Rule) : Bool := !r.ext.isEmpty && r.ext.all (fun t => t == .blank)
+
+/-- `outsideDomain` per entry point. On the public option a list of blank entries only is inside the
+domain (it must be rejected, `optionRejects`); blank entries mixed with addresses stay outside (they
+are dropped silently), as do all blank entries on the in-package path. -/
+def outsideDomainOn (path : Path) (rules : List Rule) : Bool :=
+  rules.any (fun r => (r.ext.contains .blank && !(path = .option && allBlank r)) || r.mode > 2 || (inert r && illFormed r))
+
+/-- What the public option `WithAddressRewriteRules` must reject: whatever the rule compiler rejects,
+and a rule whose `External` list holds blank entries only. A rule with an EMPTY `External` list is a
+documented rule (replace: drop the matched candidate, append: keep it unchanged) and is NOT rejected. -/
+def optionRejects (rules : List Rule) : Bool := docRejects rules || rules.any allBlank
 
 /-- Monitor for a construction outcome: `implErr = none` accepted, `some e` rejected with `e`. -/
 def newViolation (path : Path) (rules : List Rule) (implErr : Option Err) : Option String :=
-  let mustReject := (match path with
-    | .legacy es => legacyRejects es
-    | _ => false) || docRejects rules
-  if outsideDomain rules then none
+  let mustReject := match path with
+    | .legacy es => legacyRejects es || docRejects rules
+    | .option => optionRejects rules
+    | .direct => docRejects rules
+  if outsideDomainOn path rules then none
   else match implErr with
   | none => if mustReject then some "invalid rule set accepted at construction" else none
   | some e =>
-    if !mustReject then
-      (if path = .option && rules.any (fun r => r.ext.isEmpty) then some reasonF14
-       else some "valid rule set rejected at construction")
+    if !mustReject then some "valid rule set rejected at construction"
     else if e = .unsupported && !rules.any unsupportedRule then some "unsupported-type error without a prflx rule"
     else none
 
